@@ -54,6 +54,10 @@ MUTATIONS = [
      "vector3.New(shape[i].X(), shape[i].Y(), 0)", "vector3.New(shape[i].X(), shape[i].Y()*0.9, 0)"),
     ("shape: straight-run fallback removed (fix 46912b7 reverted in effect)", E + "shape.go",
      "\t\tpers[i] = per\n\t}\n\n\tvertices", "\t\t_ = per\n\t}\n\n\tvertices"),
+    ("shape: frame side not kept through opposite bends (fix 07412d7 reverted)", E + "shape.go",
+     "if pers[i].Dot(pers[i-1]) < 0 {", "if pers[i].Dot(pers[i-1]) < -1e300 {"),
+    ("polygon: frame not accumulated (lastRot = rot)", E + "circle.go",
+     "lastRot = rot.Multiply(lastRot)", "lastRot = rot"),
     ("line: left edge at half the width", E + "line.go",
      "leftPoint := low.Sub(outDir)", "leftPoint := low.Sub(outDir.Scale(0.5))"),
     ("line: left side wound the other way", E + "line.go",
